@@ -169,6 +169,7 @@ theorem gen_free_collectPerpRevenue : Gen.Arith.freeOf "collectPerpRevenue" =
      "sdk.AccAddressFromBech32(#0.GetParams(#1).ProtocolRevenueAddress)#err",
      "#0.estakingKeeper.GetParams(#1).ProviderStakingRewardsPortion"] := by decide
 
-theorem gen_skipped_collectors : Gen.Arith.skippedCalls = [("collectGasFees", "#0.AddFeeInfo"), ("collectPerpRevenue", "#0.AddFeeInfo")] := by decide
+theorem gen_skipped_collectors :
+    Gen.Arith.skippedOf "collectGasFees" = ["#0.AddFeeInfo"] ∧ Gen.Arith.skippedOf "collectPerpRevenue" = ["#0.AddFeeInfo"] := by decide
 
 end Elys.Blocks.C18Src
